@@ -91,3 +91,17 @@ let run_case (toks : string list) : string =
     let l = List.map string_of_obs obs in
     String.concat " " (List.map fst l) ^ " # " ^ String.concat "" (List.map snd l)
   | _ -> failwith "flw case"
+
+(* "<hex path>": try_from takes stem and extension of the last component; they re-assemble to the name
+   (C16_stem_ext_roundtrip), so the derived spec denotes the path and a writer built from it writes there *)
+let run_tryfrom (toks : string list) : string =
+  match toks with
+  | [h] ->
+    let path = bytes_of_hex h in
+    let rec last_comp acc = function
+      | [] -> List.rev acc
+      | c :: r -> if int_of_n c = 47 then last_comp [] r else last_comp (c :: acc) r in
+    let name = last_comp [] path in
+    let back = file_stem name @ (match extension name with Some e -> n_of_int 46 :: e | None -> []) in
+    Printf.sprintf "p0 rt%d b1 w1 # ." (if back = name then 1 else 0)
+  | _ -> failwith "tryfrom case"
